@@ -74,6 +74,18 @@ int close(int fd) {
 }
 }
 
+// allocation meter for the native replay: every byte requested from the global operator new
+#include <new>
+extern "C" { unsigned long vt_native_alloc_bytes = 0; }
+void* operator new(std::size_t n) {
+  vt_native_alloc_bytes += n;
+  void* p = std::malloc(n ? n : 1);
+  if (!p) std::abort();
+  return p;
+}
+void operator delete(void* p) noexcept { std::free(p); }
+void operator delete(void* p, std::size_t) noexcept { std::free(p); }
+
 namespace vt {
 std::map<std::string, void (*)()>& registry() {
   static std::map<std::string, void (*)()> r;
